@@ -33,6 +33,7 @@ package schemas
 //@   assigns nothing
 //@   ensures [C11] result-or-error: (result1 == nil) != (result0 == nil)
 //@   ensures [C11] result-is-new: result1 == nil ==> fresh(result0)
+//@   ensures [C11] merge-options: result1 == nil ==> merge_options() == "WithAppendSlice,WithTransformers"
 
 // With nested sub-schemas the same obligation FAILS on the real code, and rightly:
 // the first Merge copies the first branch's pointers (property sub-schemas,
@@ -72,6 +73,7 @@ package schemas
 // keyword's value if there was one, else the legacy keyword's.
 //@ func (*Type).UnmarshalJSON
 //@   props C13
+//@   success-path-calls json.Unmarshal 1|3
 //@   option json-havoc Definitions DependentSchemas Dependencies
 //@   option noframe
 //@   shape value = new
@@ -81,11 +83,12 @@ package schemas
 //@   ensures [C13,C18] decode-errors-propagate: !decode_happened(0, "bool") && !decode_happened(2, "Definitions") ==> result != nil
 
 //@ func (*Schema).UnmarshalJSON
-//@   props C13
+//@   props C13 C20
+//@   success-path-calls json.Unmarshal 2
 //@   option json-havoc ID LegacyID Definitions
 //@   option noframe
 //@   shape s = new
 //@   option shape-zero s.
-//@   ensures [C13] id-current-wins: result == nil && decoded(0, "ID") != "" ==> s.ID == decoded(0, "ID")
-//@   ensures [C13] id-fallback: result == nil && decoded(0, "ID") == "" ==> s.ID == decoded(0, "LegacyID")
+//@   ensures [C13,C20] id-current-wins: result == nil && decoded(0, "ID") != "" ==> s.ID == decoded(0, "ID")
+//@   ensures [C13,C20] id-fallback: result == nil && decoded(0, "ID") == "" ==> s.ID == decoded(0, "LegacyID")
 //@   ensures [C13] definitions-fallback: result == nil ==> s.Definitions == (decoded(0, "Definitions") != nil ? decoded(0, "Definitions") : decoded(1, "Definitions"))
